@@ -81,7 +81,7 @@ type tsSignedData struct {
 	Version          int
 	DigestAlgorithms []pkix.AlgorithmIdentifier `asn1:"set"`
 	EncapContentInfo tsEncap
-	Certificates     asn1.RawValue `asn1:"optional,tag:0"`
+	Certificates     asn1.RawValue  `asn1:"optional,tag:0"`
 	SignerInfos      []tsSignerInfo `asn1:"set"`
 }
 type tsEssCertIDv2 struct{ CertHash []byte }
